@@ -203,7 +203,7 @@ def run_property(prop: str, run: Callable[[Ctx], None], src_root: str, tier: str
     for i, f in enumerate(violations, 1):
         rp = os.path.join(replay_dir, f"{prop}-{i}.json")
         with open(rp, "w") as fh:
-            json.dump({"property": prop, **f.as_dict()}, fh, indent=1)
+            json.dump({"property": prop, **f.as_dict()}, fh, indent=1, default=str)
         out.append(f"VIOLATION property={prop} replay={rp}")
         out.append(f"  rule={f.rule} construct={f.construct} at {f.where} - {f.message}")
         for s in f.steps[:12]:
